@@ -1,5 +1,146 @@
-//! byte-exact tie of the concrete CP/M model (stub until the model is built): called from fs.rs::post_step
-//! after every executed operation (`w.last_op` describes it) and once after format (`w.last_op == None`)
-use super::fs::{Drv, Verdicts, World};
+//! byte-exact tie of the concrete CP/M model (Lean `Model/Fs/Cpm.lean`, driver family `fsc`): called from
+//! fs.rs::post_step after every executed operation on a CP/M volume (`w.last_op` describes it; `None` = nothing was
+//! executed since the last call) on every container, because the raw units are the allocation blocks as
+//! `DiskFS::read_block` returns them.  Switch off with `A2V_NO_FSCPM=1`.
+//!
+//! The driver holds the mirrored real image (family `fs`) and the model's own image.  For every operation the
+//! model applies the same operation with the same arguments and must produce the same result class and an image
+//! equal to the real one block for block; afterwards free count, catalog rows and (after a successful put, and
+//! for a get of a missing file) the file as `get` returns it are compared.  The first call of a history finds
+//! the model uninitialised (`fsc state` = `empty`): the model then formats a blank image itself (`fsc format`
+//! when nothing has been executed yet — compared with the mirror — or `fsc init` followed by the operation).
+use super::fs::{Drv, Focus, Fs, OpRecord, Verdicts, World};
+use crate::util::*;
+use a2kit::fs::FileImage;
+use std::collections::BTreeMap;
 
-pub fn after_step(_drv: &mut Drv, _w: &mut World, _vd: &mut Verdicts, _desc: &str) {}
+/// `pack.rs::pack_date` recomputed by the harness (the clock is pinned by the shim)
+fn cpm_pack(now: chrono::NaiveDateTime) -> Vec<u8> {
+    use chrono::Timelike;
+    let ref_date = chrono::NaiveDate::from_ymd_opt(1978, 1, 1).unwrap().and_hms_opt(0, 0, 0).unwrap();
+    let d = now.signed_duration_since(ref_date).num_days();
+    let days: [u8; 2] = if d > u16::MAX as i64 { u16::MAX.to_le_bytes() } else if d < 0 { [0, 0] } else { (d as u16 + 1).to_le_bytes() };
+    let hours = (now.hour() / 10) * 16 + now.hour() % 10;
+    let minutes = (now.minute() / 10) * 16 + now.minute() % 10;
+    vec![days[0], days[1], hours as u8, minutes as u8]
+}
+fn cpm_now() -> Vec<u8> { cpm_pack(chrono::Local::now().naive_local()) }
+
+/// what `fs.rs::make_volume` passes to `format`
+fn format_args(w: &World) -> (String, String) {
+    if w.cfg.fs == Fs::Cpm3 {
+        let t = chrono::NaiveDate::from_ymd_opt(2000, 1, 1).unwrap().and_hms_opt(0, 0, 0).unwrap();
+        (hx(b"VERIF"), hx(&cpm_pack(t)))
+    } else { ("-".to_string(), "-".to_string()) }
+}
+
+/// result class of a real CP/M operation in the vocabulary of the model (`Err.token`)
+fn err_tok(e: &str) -> String {
+    match e {
+        "bad data format" => "badformat", "file is read only" => "readonly", "drive not found" => "select", "directory full" => "dirfull",
+        "disk full" => "diskfull", "cannot read" => "readerror", "file exists" => "exists", "file not found" => "notfound",
+        "PANIC" => "panic", _ => return format!("other({})", e.replace(' ', "_")),
+    }.to_string()
+}
+fn res_tok(r: &Result<(), String>) -> String { match r { Ok(()) => "ok".to_string(), Err(e) => format!("err:{}", err_tok(e)) } }
+
+/// Adler-32 over (index low, index high, data…) of every chunk in index order
+fn adler(chunks: &BTreeMap<usize, Vec<u8>>) -> u64 {
+    let (mut a, mut b) = (1u64, 0u64);
+    for (i, c) in chunks {
+        for x in [(*i % 256) as u8, (*i / 256 % 256) as u8].iter().chain(c.iter()) { a = (a + *x as u64) % 65521; b = (b + a) % 65521; }
+    }
+    b * 65536 + a
+}
+fn get_answer(r: &Result<Result<FileImage, String>, String>) -> String {
+    match r {
+        Ok(Ok(g)) => { let cs: BTreeMap<usize, Vec<u8>> = g.chunks.iter().map(|(k, v)| (*k, v.clone())).collect(); format!("ok {} {} {} {} {} {}", g.get_eof(), hx(&g.access), hx(&g.created), hx(&g.modified), cs.len(), adler(&cs)) }
+        Ok(Err(e)) => format!("err:{}", err_tok(e)),
+        Err(_) => "err:panic".to_string(),
+    }
+}
+
+fn verdict(vd: &mut Verdicts, w: &World, pass: bool, kind: &str, detail: &str) {
+    let hist = w.hist.clone();
+    for f in [Focus::C01, Focus::C02, Focus::C03, Focus::C05] {
+        if pass { vd.v(f, true, "concrete-model", "", &[]); } else { vd.v(f, false, &format!("concrete-model:{}", kind), detail, &hist); }
+    }
+}
+
+/// send one request to the concrete model; `expect` = the real answer of a query, None = a mutating operation
+/// (the driver compares result class and the whole image with the mirror and answers `ok`)
+fn tie(drv: &mut Drv, w: &World, vd: &mut Verdicts, req: &str, expect: Option<String>, desc: &str) {
+    let ans = drv.ask(&format!("fsc {}", req));
+    let want = expect.unwrap_or("ok".to_string());
+    if ans == want { verdict(vd, w, true, "", ""); return; }
+    let kind = if ans.starts_with("bad result") { "result" } else if ans.starts_with("bad block") { "image" } else { req.split(' ').next().unwrap_or("?") }.to_string();
+    let short: String = req.chars().take(160).collect();
+    verdict(vd, w, false, &kind, &format!("concrete CP/M model disagrees after [{}]: request [{}] model answered [{}] expected [{}]", desc, short, ans, want));
+}
+
+fn hxs(s: &str) -> String { hx(s.as_bytes()) }
+
+/// the `fsc` request describing an executed operation
+fn op_request(o: &OpRecord) -> Option<String> {
+    let real = res_tok(&o.result);
+    Some(match o.kind {
+        "put" => {
+            // a refusal decided before anything is written does not depend on the data: send the indices only
+            let early = matches!(real.as_str(), "err:exists" | "err:diskfull" | "err:dirfull" | "err:select");
+            let cs = if o.chunks.is_empty() { "-".to_string() } else { o.chunks.iter().map(|(i, c)| if early { format!("{}:-", i) } else { format!("{}:{}", i, hx(c)) }).collect::<Vec<_>>().join(",") };
+            format!("put {} {} {} {} {} {} {}", hxs(&o.spelled), hx(&o.fs_type), hx(&o.access), o.eof, hx(&cpm_now()), real, cs)
+        }
+        "delete" => format!("delete {} {}", hxs(&o.spelled), real),
+        "rename" => format!("rename {} {} {}", hxs(&o.spelled), hxs(&o.arg2), real),
+        "lock" => format!("lock {} {}", hxs(&o.spelled), real),
+        "unlock" => format!("unlock {} {}", hxs(&o.spelled), real),
+        "retype" => format!("retype {} {} {}", hxs(&o.spelled), hxs(&o.arg2), real),
+        "protect" => {
+            let t: Vec<&str> = o.arg2.split(' ').collect();
+            if t.len() != 4 { return None; }
+            let b = |s: &str| if s == "true" { "1" } else { "0" };
+            format!("protect {} {} {} {} {} {}", hxs(&o.spelled), hxs(t[0]), b(t[1]), b(t[2]), b(t[3]), real)
+        }
+        "unprotect" => format!("unprotect {} {}", hxs(&o.spelled), real),
+        _ => return None,
+    })
+}
+
+pub fn after_step(drv: &mut Drv, w: &mut World, vd: &mut Verdicts, desc: &str) {
+    if std::env::var("A2V_NO_FSCPM").is_ok() { return; }
+    let op = w.last_op.clone();
+    // first call of this history: the model formats its own blank image
+    if drv.ask("fsc state") == "empty" {
+        let (vn, t) = format_args(w);
+        if op.is_none() { tie(drv, w, vd, &format!("format {} {} ok", vn, t), None, "format"); }
+        else { tie(drv, w, vd, &format!("init {} {}", vn, t), None, "format"); }
+    }
+    if let Some(o) = &op {
+        if let Some(req) = op_request(o) { tie(drv, w, vd, &req, None, desc); }
+    }
+    // queries: free count, catalog rows, the file just stored, a file that is not there.  After a refused operation
+    // the image is (checked to be) the one the queries were compared on after the previous step: nothing new to ask.
+    let refused = matches!(&op, Some(o) if o.result.is_err());
+    if refused && !desc.starts_with("get-missing") { return; }
+    if let (Ok(f), Ok(Ok(rows))) = (w.free(), guarded(|| w.disk.catalog_to_vec("/").map_err(|e| e.to_string()))) {
+        // `universal_row`: "{:4} {:5}  {}" = type, blocks, name
+        let items: Vec<String> = rows.iter().map(|r| {
+            match (r.get(..4), r.get(5..10), r.get(12..)) {
+                (Some(t), Some(b), Some(n)) if r.len() > 12 => format!("{}:{}:{}", hxs(t.trim()), b.trim(), hxs(n)),
+                _ => format!("?{}", r.replace(' ', "_")),
+            }
+        }).collect();
+        tie(drv, w, vd, "q", Some(format!("ok {} {}", f, if items.is_empty() { "-".to_string() } else { items.join(",") })), desc);
+    }
+    if let Some(o) = &op {
+        if o.kind == "put" && o.result.is_ok() {
+            let res = w.get(&o.spelled);
+            tie(drv, w, vd, &format!("get {}", hxs(&o.spelled)), Some(get_answer(&res)), desc);
+        }
+    }
+    if let Some(rest) = desc.strip_prefix("get-missing ") {
+        let name = rest.split(" => ").next().unwrap_or("").to_string();
+        let res = w.get(&name);
+        tie(drv, w, vd, &format!("get {}", hxs(&name)), Some(get_answer(&res)), desc);
+    }
+}
